@@ -8,7 +8,7 @@
     [somes l]: concatenation of the emitted chunks.  [resolved v]: the document of the fully
     awaited view.  [known_class ooo init v]: decidable class of finding F-C07-a. *)
 From Coq Require Import List NArith.
-From LV Require Import Html.Stream Html.StreamRun Html.StreamProofs.
+From LV Require Import Html.Stream Html.StreamRun Html.StreamProofs Html.StreamOooProofs.
 Import ListNotations.
 Local Open Scope nat_scope.
 
@@ -70,3 +70,67 @@ Theorem C07_executor_never_stalls_in_order :
   clean (run_executor n false v init ev) /\ In ONone (run_executor n false v init ev).
 Proof. exact executor_never_stalls_in_order. Qed.
 Print Assumptions C07_executor_never_stalls_in_order.
+
+(* ------------------------------------------------------------------ out-of-order *)
+(** [wf_ooo v]: the view uses no push_async / append call pattern and a boundary whose future
+    yields None has a fallback without futures.  [apply_scripts h [] None]: what a browser has
+    after parsing the concatenated stream [h] — text is appended to the document, a <template>
+    is inert, its script replaces the marked fallback in the document parsed so far ([None]: a
+    script did not find its markers). *)
+
+(** out-of-order equality is REFUTED as stated (F-C07-a): <div><p>l</p>mr</div> instead of
+    <div><p>l</p>m<!>r</div> *)
+Theorem C07_ooo_after_scripts_refuted :
+  exists v init ev, wf_ooo v = true /\
+    apply_scripts (somes (run_free (poll_fuel v) true v init ev)) [] None
+    <> Some (fst (resolved v FirstChild)).
+Proof. exact ooo_after_scripts_refuted. Qed.
+Print Assumptions C07_ooo_after_scripts_refuted.
+
+(** … and holds outside that class: after its replacement scripts the out-of-order stream is the
+    resolved render, for every schedule; the stream ends with None, nothing goes wrong *)
+Theorem C07_ooo_after_scripts_except_known :
+  forall v init n ev,
+  poll_fuel v <= n -> wf_ooo v = true -> known_class true init v = false ->
+  let l := run_free n true v init ev in
+  apply_scripts (somes l) [] None = Some (fst (resolved v FirstChild)) /\ In ONone l /\ clean l.
+Proof. exact ooo_after_scripts_free. Qed.
+Print Assumptions C07_ooo_after_scripts_except_known.
+
+Theorem C07_ooo_after_scripts_executor_except_known :
+  forall v init n ev,
+  poll_fuel v <= n -> wf_ooo v = true -> known_class true init v = false ->
+  let l := run_executor n true v init ev in
+  apply_scripts (somes l) [] None = Some (fst (resolved v FirstChild)) /\ In ONone l /\ clean l.
+Proof. exact ooo_after_scripts_exec. Qed.
+Print Assumptions C07_ooo_after_scripts_executor_except_known.
+
+(** for EVERY well-formed view (known class included), every schedule, both drives: the
+    out-of-order stream terminates (None within the poll bound once all futures are complete),
+    never panics, a wake-driven executor never stalls, every replacement script finds its
+    markers, and no marker is left over: no chunk is dropped *)
+Theorem C07_ooo_terminates_and_scripts_apply :
+  forall v init n ev,
+  poll_fuel v <= n -> wf_ooo v = true ->
+  (let l := run_free n true v init ev in
+   (exists D, apply_scripts (somes l) [] None = Some D /\ plain D) /\ In ONone l /\ clean l)
+  /\ (let l := run_executor n true v init ev in
+      (exists D, apply_scripts (somes l) [] None = Some D /\ plain D) /\ In ONone l /\ clean l).
+Proof. exact ooo_always_sound. Qed.
+Print Assumptions C07_ooo_terminates_and_scripts_apply.
+
+(** each boundary shows its fallback until it is replaced: after any prefix of any schedule the
+    browser's document (with what the stream still buffers) has exactly one fallback region per
+    unresolved chunk, and filling the regions with their final content gives the resolved render *)
+Theorem C07_ooo_fallback_until_replaced :
+  forall v init ev,
+  wf_ooo v = true -> known_class true init v = false ->
+  let x := run_events clo oclo res_clo res_oclo (poll_fuel v) ev (init_state true init v) in
+  exists D rs e,
+    apply_scripts (somes (snd x) ++ Tb (rs_sb (fst x))) [] None = Some D
+    /\ wfd D rs /\ NoDup (rids rs)
+    /\ (forall i F0, In (i, F0) rs -> exists f k, In (f, k) (Qb (rs_sb (fst x))) /\ o_id k = Some i)
+    /\ (forall f k, In (f, k) (Qb (rs_sb (fst x))) -> exists i F0, o_id k = Some i /\ In (i, F0) rs)
+    /\ fill e None D = fst (resolved v FirstChild).
+Proof. exact ooo_fallback_until_replaced. Qed.
+Print Assumptions C07_ooo_fallback_until_replaced.
